@@ -277,6 +277,7 @@ class World:
         self.scratch_suffix = [" dir", "-\u00e9\u00f6", "", "", ""][rng_init % 5]
 
     def __enter__(self):
+        self._cwd = os.getcwd()
         self.rng.install()
         # the simulator owns the initial state of the process-global generator (a forked worker would otherwise carry
         # whatever OS-entropy state numpy gave the parent at import)
@@ -316,6 +317,10 @@ class World:
             setattr(mod, name, old)
         self._patched.clear()
         self.rng.restore()
+        try:
+            os.chdir(self._cwd)  # a run may have moved into its scratch directory
+        except OSError:
+            os.chdir(VERIF_DIR)
         if self.scratch is not None:
             shutil.rmtree(self.scratch, ignore_errors=True)
             self.scratch = None
